@@ -2,6 +2,9 @@ import SparkxVerif.Core.ReaderProto
 import SparkxVerif.Core.Render
 import SparkxVerif.Core.Columns
 import SparkxVerif.Core.Kinematics
+import SparkxVerif.Gen.ReaderLoop
+import SparkxVerif.Gen.ReaderScan
+import SparkxVerif.Gen.ReaderSelGen
 
 /-! driver ops for C01 (fields TAB-separated; answers `ok` + TAB-separated `key=value` fields)
 
@@ -16,6 +19,15 @@ import SparkxVerif.Core.Kinematics
   charge <valid> <q3|n>                                        derived JETSCAPE charge and the documented value
   mass   <pdg|-> <E> <px> <py> <pz>                            derived JETSCAPE mass (floats as bit patterns)
   fmtchain <tokens ,-joined hex>                               format sniffing: generated chain vs `oscarFormat`
+  gread  <kind> <sel> <filters> <views> <filehex>             tie C on top of tie T: the same file read by the readers assembled
+                                                               from GENERATED parts only (`Gen/ReaderLoop.lean`: line loop body,
+                                                               start state, final check, `set_num_events`; `Gen/ReaderScan.lean`:
+                                                               first-pass scanners; `Gen/ReaderSelGen.lean`:
+                                                               selection arithmetic); answer like `read` plus `tl=` (no line
+                                                               follows a JETSCAPE trailer line: the hypothesis of
+                                                               `genReadJetscapeAll_eq`) and `same=` (equal to the hand-written
+                                                               reader's answer)
+  The `ospec` / `jspec` answers carry `gread=` (the generated reader on the rendered text) as well.
 -/
 namespace SparkxVerif.Drv.C01
 open SparkxVerif.Proto SparkxVerif.Rd SparkxVerif.Rd.Proto SparkxVerif.Cols
@@ -57,6 +69,34 @@ def jevent? (s : String) : Option JEvent :=
   | [lab, hdr, rows] => do pure { label := ← lab.toInt?, parts := rows? rows, header := ← unhex? hdr }
   | _ => none
 
+/-- `OscarLoader.load` / `JetscapeLoader.load` from generated parts only (`C01.GenLoop.genReadOscarFull`,
+`genReadJetscapeFull`: scanner, `set_num_events`, selection arithmetic, line loop, final check) -/
+def gReadOscar (f : FileF) (sel : Sel) (filt : Option EvFilter) : Except Rd.Err Loaded :=
+  RdLoop.readOscarPartsS Gen.ReaderScan.genOscarScan Gen.ReaderSelGen.genOscar Gen.ReaderLoop.genOscarParts f sel filt
+
+def gReadJetscape (f : FileF) (sel : Sel) (partons : Bool) (filt : Option EvFilter) : Except Rd.Err Loaded :=
+  RdLoop.readJetscapePartsS Gen.ReaderScan.genJetscapeScan Gen.ReaderSelGen.genJetscape Gen.ReaderLoop.genJetscapeParts
+    f sel partons filt
+
+def handleGRead : List String → String
+  | [kind, sel, filt, views, file] =>
+    match sel? sel, filters? filt, views? views, unhex? file with
+    | some sel, some filt, some views, some text =>
+      let f := fileOfText text
+      let ef := filt.map (evFilter views)
+      let r := if kind == "oscar" then some (gReadOscar f sel ef, readOscar f sel ef)
+               else if kind == "jetscape" then some (gReadJetscape f sel false ef, readJetscape f sel false ef)
+               else if kind == "jetscapeP" then some (gReadJetscape f sel true ef, readJetscape f sel true ef)
+               else none
+      match r with
+      | some (g, m) =>
+        let sg := match g with | .ok l => showLoaded l | .error e => showErr e
+        let sm := match m with | .ok l => showLoaded l | .error e => showErr e
+        sg ++ " tl=" ++ b01 (RdLoop.trailerLastB f.lines) ++ " same=" ++ b01 (sg == sm)
+      | none => "bad-op"
+    | _, _, _, _ => "bad-op"
+  | _ => "bad-op"
+
 def loadedEq (a b : Loaded) : Bool :=
   a.events == b.events && a.numEvents == b.numEvents && a.counts == b.counts && a.fmt == b.fmt &&
   a.customAttrs == b.customAttrs && a.footers == b.footers
@@ -78,7 +118,7 @@ def handleOspec : List String → String
       let pl := match r with | .ok l => particleList l | .error e => .error e
       "\t".intercalate ["ok", "text=" ++ hexOfString text, "wf=" ++ b01 (wfOscarB F), "gram=" ++ b01 (grammarOscar F), "obs=" ++ b01 (obsOscar f F),
         "thm=" ++ b01 (readEq r a && impOk), "read=" ++ showRead r, "abs=" ++ showLoaded a, "imp=" ++ showToks imp,
-        "pl=" ++ showPList pl]
+        "pl=" ++ showPList pl, "gread=" ++ showRead (gReadOscar f .all none)]
     | _, _, _, _ => "bad-op"
   | _ => "bad-op"
 
@@ -97,7 +137,8 @@ def handleJspec : List String → String
       let pl := match r with | .ok l => particleList l | .error e => .error e
       "\t".intercalate ["ok", "text=" ++ hexOfString text, "wf=" ++ b01 (wfJetB F), "gram=" ++ b01 (grammarJet F), "obs=" ++ b01 (obsJet f F),
         "thm=" ++ b01 (readEq r a && sgOk), "read=" ++ showRead r, "abs=" ++ showLoaded a, "sig=" ++ showSigma sg,
-        "pl=" ++ showPList pl]
+        "pl=" ++ showPList pl, "gread=" ++ showRead (gReadJetscape f .all F.partons none),
+        "tl=" ++ b01 (RdLoop.trailerLastB f.lines)]
     | _, _, _, _ => "bad-op"
   | _ => "bad-op"
 
@@ -178,6 +219,7 @@ def handleFmtChain : List String → String
 
 def handle : List String → String
   | "read" :: rest => handleRead rest
+  | "gread" :: rest => handleGRead rest
   | "file" :: rest => handleFile rest
   | "ospec" :: rest => handleOspec rest
   | "jspec" :: rest => handleJspec rest
